@@ -189,6 +189,12 @@ theorem processO_eq (q : Json) : processO q = .ok (process q) := by
       obtain ⟨kvs, sec, _, hwf, _, hi⟩ := plan_wf hp
       simp only [expandO_eq p _ hwf, hi]
 
+/-- an error that already names the query is left alone by `apply_input_plugins`' `with_request` -/
+@[simp] theorem withRequest_plugin_self {ε : Type} (q : Json) (e : ε) :
+    withRequest q (PipeErr.plugin q e) = PipeErr.plugin q e := by
+  simp only [withRequest]
+  split <;> rfl
+
 /-! ### generated queries as maps: last writer wins -/
 
 open Json (lookup insertKv)
